@@ -521,6 +521,44 @@ def explore_extras(ctx: Ctx) -> Result:
             total.violate(Violation(ID, "count", "wrong-count", case, "filter('m2','big',700) on 1200 distinct rows did not return 700"))
         st.conn.close()
     total.oblige("X:large-batch-whole", True)
+    # X3: a database file that ALREADY EXISTS, written by the released version (table and index created with the DDL of
+    # the pinned commit, rows inserted by column name): opened, added to and queried through the store
+    RELEASED_DDL = [
+        f"CREATE TABLE IF NOT EXISTS {TABLE} (created_at TEXT, module TEXT, qualname TEXT, arg_types TEXT, return_type TEXT, yield_type TEXT);",
+        f"CREATE INDEX IF NOT EXISTS {TABLE}_module ON {TABLE} (module);",
+    ]
+    for pre_b, new_bs in ((0, [5]), (5, [0, 13]), (13, [13]), (0, [])):
+        path3 = str(ctx.tmp / f"x_released_{pre_b}_{len(new_bs)}.sqlite3")
+        for ext in ("", "-journal"):
+            if os.path.exists(path3 + ext):
+                os.unlink(path3 + ext)
+        c = sqlite3.connect(path3)
+        for q in RELEASED_DDL:
+            c.execute(q)
+        old_rows = [r for r in (row_of(s_) for s_ in BATCHES[pre_b]) if r is not None]
+        with c:
+            c.executemany(f"INSERT INTO {TABLE} (created_at, module, qualname, arg_types, return_type, yield_type) VALUES ('2020-01-02 03:04:05.000006', ?, ?, ?, ?, ?)", old_rows)
+        c.close()
+        case = {"part": "X", "history": [["released-file", 0, pre_b]] + [["add", 0, b] for b in new_bs], "released": True}
+        total.states += 1
+        total.evaluations += 1
+        total.validated += 1
+        total.transitions += 1 + len(new_bs)
+        try:
+            st = SQLiteStore.make_store(path3)
+            model3 = collections.Counter(old_rows)
+            for b in new_bs:
+                st.add([mktrace(s_) for s_ in BATCHES[b]])
+                model3 += collections.Counter(r for r in (row_of(s_) for s_ in BATCHES[b]) if r is not None)
+            st2 = SQLiteStore.make_store(path3)   # and once more through a fresh connection
+            raw3 = indep_rows(path3)
+            if raw3 != model3:
+                total.violate(Violation(ID, "content", "table-differs-from-model", case, f"database file of the released layout holding batch {pre_b}, then add {new_bs}: table {sorted(raw3.items(), key=repr)[:3]} != model {sorted(model3.items(), key=repr)[:3]}"))
+            for si, s3 in enumerate((st, st2)):
+                check_queries(s3, model3, total, dict(case, conn=si), f"released-layout file with batch {pre_b}, then add {new_bs}, connection {si}")
+        except Exception as e:  # noqa: BLE001
+            total.violate(Violation(ID, "exception", "released-layout-file", case, f"released-layout file with batch {pre_b}, then add {new_bs}: raised {e!r}"))
+    total.oblige("X:file-of-the-released-layout", True)
     return total
 
 
@@ -1079,7 +1117,7 @@ def run(ctx: Ctx) -> Result:
 def _finish(res: Result) -> Result:
     for o in (
         "H:query-distinguishing-LIKE-from-prefix", "H:state-with-duplicates", "H:multi-connection-state",
-        "RF:interrupted-query-raised", "X:same-row-committed-on-different-days", "X:tables-with-different-modules", "X:large-batch-whole",
+        "RF:interrupted-query-raised", "X:same-row-committed-on-different-days", "X:tables-with-different-modules", "X:large-batch-whole", "X:file-of-the-released-layout",
         "S:second-writer-committed-inside", "P:other-process-committed-while-writer-paused", "K:crash-before-commit", "K:crash-after-commit", "F:abort-rolled-back",
     ):
         res.obligations.setdefault(o, False)
@@ -1102,6 +1140,8 @@ def replay(case: Dict[str, Any], ctx: Ctx) -> List[Violation]:
     elif part == "X":
         if case.get("big"):
             return [v for v in explore_extras(ctx).violations if v.case.get("big")]
+        if case.get("released"):
+            return [v for v in explore_extras(ctx).violations if v.case.get("released")]
         import monkeytype.db.sqlite as sq
         from mcheck.props.c14 import FakeDatetimeModule
 
